@@ -51,6 +51,23 @@ Proof.
   - apply skipn_cons_inv in Es. destruct Es as [H1 H2]. subst. reflexivity.
 Qed.
 
+Lemma pp_is_prefix_firstn : forall d (k : key), is_prefix (firstn d k) k = true.
+Proof.
+  induction d as [|d IH]; intros [|x k]; cbn [firstn is_prefix]; try reflexivity.
+  rewrite Bool.eqb_reflx. cbn [andb]. apply IH.
+Qed.
+
+Lemma is_prefix_firstn_eq : forall (p k : key),
+  is_prefix p k = true <-> firstn (length p) k = p.
+Proof.
+  induction p as [|x p IH]; intros [|y k]; cbn [is_prefix firstn length]; split; intros Hh;
+    try reflexivity; try discriminate.
+  - apply andb_true_iff in Hh. destruct Hh as [H1 H2].
+    apply Bool.eqb_prop in H1. apply IH in H2. subst. rewrite H2. reflexivity.
+  - inversion Hh as [[Hx Hp]]. rewrite Hp. rewrite Bool.eqb_reflx. cbn [andb].
+    apply IH. exact Hp.
+Qed.
+
 (* ------------------------------------------------------------------------------------ *)
 (* hash_up                                                                               *)
 (* ------------------------------------------------------------------------------------ *)
@@ -226,6 +243,7 @@ Lemma verify_ok_inv : forall (H : Hasher) (p : path_proof H) kp root vp,
 Proof.
   intros H p kp root vp Hv. unfold verify, hash_path in Hv.
   destruct (Nat.ltb (Nat.min (length kp) 256) (length (pp_siblings p))) eqn:E1; [discriminate|].
+  destruct (match pp_terminal p with TLeaf k _ => _ | TTerm _ => false end) eqn:E0; [discriminate|].
   destruct (node_eqb H _ root) eqn:E2; [|discriminate].
   inversion Hv; subst; clear Hv. simpl.
   apply Nat.ltb_ge in E1.
@@ -239,6 +257,22 @@ Lemma vp_path_length : forall (H : Hasher) (p : path_proof H) kp root vp,
 Proof.
   intros H p kp root vp Hv. apply verify_ok_inv in Hv.
   destruct Hv as [H1 [H2 [H3 [H4 _]]]]. rewrite H4, firstn_length. lia.
+Qed.
+
+(* the new check of PathProof::verify: a verified leaf terminal lies under the proven path *)
+Lemma verify_ok_terminal : forall (H : Hasher) (p : path_proof H) kp root vp,
+  verify H p kp root = Ok vp ->
+  forall k v, vp_terminal vp = Some (k, v) -> is_prefix (vp_path vp) k = true.
+Proof.
+  intros H p kp root vp Hv k v Ht. unfold verify, hash_path in Hv.
+  destruct (Nat.ltb (Nat.min (length kp) 256) (length (pp_siblings p))) eqn:E1; [discriminate|].
+  destruct (pp_terminal p) as [k' v'|pth] eqn:Et.
+  - destruct (negb (is_prefix (firstn (length (pp_siblings p)) kp) k')) eqn:E0; [discriminate|].
+    destruct (node_eqb H _ root) eqn:E2; [|discriminate].
+    inversion Hv; subst; clear Hv. cbn [vp_terminal vp_path] in *.
+    inversion Ht; subst. apply negb_false_iff in E0. exact E0.
+  - destruct (node_eqb H _ root) eqn:E2; [|discriminate].
+    inversion Hv; subst; clear Hv. cbn [vp_terminal] in Ht. discriminate.
 Qed.
 
 Lemma in_scope_ok_inv : forall (H : Hasher) (vp : verified H) k u,
@@ -288,6 +322,7 @@ Theorem verify_total : forall (H : Hasher) (p : path_proof H) kp root, verify H 
 Proof.
   intros H p kp root. unfold verify.
   destruct (Nat.ltb _ _); [discriminate|].
+  destruct (match pp_terminal p with TLeaf k _ => _ | TTerm _ => false end); [discriminate|].
   destruct (node_eqb H _ root); discriminate.
 Qed.
 
@@ -380,7 +415,15 @@ Proof.
   unfold verify, hash_path. cbn [pp_siblings pp_terminal].
   assert (E1 : Nat.ltb (Nat.min (length k) 256) (length sibs) = false).
   { apply Nat.ltb_ge. rewrite Hk. rewrite Nat.min_l by lia. lia. }
-  rewrite E1. rewrite Hup.
+  rewrite E1.
+  (* the honest leaf lies under the path (mk_walk) *)
+  assert (E0 : match tm with
+               | TLeaf k' _ => negb (is_prefix (firstn (length sibs) k) k')
+               | TTerm _ => false
+               end = false).
+  { destruct tm as [k' v'|pth]; [|reflexivity].
+    destruct Htm as [_ [Hpre _]]. rewrite <- Hpre. rewrite pp_is_prefix_firstn. reflexivity. }
+  rewrite E0. rewrite Hup.
   assert (E2 : node_eqb H (hash H (mk n 0 S)) (root_n H n S) = true).
   { apply (eqb_ok H OK). reflexivity. }
   rewrite E2.
